@@ -74,10 +74,11 @@ def validate_trace_locked(ctx, spec_dir, module, cfg, trace_name, what, timeout=
             events.append(line.strip())
     bad = events[matched] if matched < len(events) else "?"
     with _lock:
-        ctx.mismatch("%s: event #%d not allowed by %s: %s" % (what, matched + 1, module, bad[:300]),
-                     "the recorded execution of the real code is not a behaviour of the specification",
-                     {"trace_spec": module, "matched_events": matched, "total_events": n,
-                      "rejected_event": bad})
+        # reported first: the rejection by the TLA+ specification is the primary verdict
+        ctx.mismatches.insert(0, {
+            "key": "%s: event #%d not allowed by %s: %s" % (what, matched + 1, module, bad[:300]),
+            "what": "the recorded execution of the real code is not a behaviour of the specification",
+            "detail": {"trace_spec": module, "matched_events": matched, "total_events": n, "rejected_event": bad}})
     return n, matched
 
 
@@ -182,11 +183,13 @@ def run(ctx):
 
     def lane_gen():
         ms, msub = (3, 3) if q else (4, 3)
-        fold_gen(lanes["gen"], "FamiliesQuick" if q else "FamiliesGen", ms, msub, w_big, 2 if q else 6)
+        fold_gen(lanes["gen"], "FamiliesQuick", ms, msub, w_big, 2 if q else 6)
 
     def lane_small():
         dd = lanes["small"]
         fold_gen(dd, "FamilyAscii", 3 if q else 4, 2, w_small, 1)
+        if not q:
+            fold_gen(dd, "FamilyMix", 3, 3, w_small, 1)
         write_cfg(dd / "SplitGen_run.cfg", "Spec", {"Tokens": "<- ModelTokens", "Spaces": "<- ModelSpaces",
                                                      "Seps": "<- ModelSeps", "MaxLen": 6 if q else 7},
                   invariants=["Emit", "PiecesClean", "EarlyReturn", "NothingLost"])
